@@ -1,8 +1,8 @@
 use std::ops::Range;
 
 use super::{
-	parse, AuthorityImpl, AuthorityMutImpl, FragmentImpl, PathImpl, PathMutImpl, QueryImpl,
-	RiBufImpl, RiImpl, SegmentImpl,
+	parse, AuthorityImpl, AuthorityMutImpl, FragmentImpl, PathBufImpl, PathImpl, PathMutImpl,
+	QueryImpl, RiBufImpl, RiImpl, SegmentImpl,
 };
 use crate::uri::Scheme;
 
@@ -389,6 +389,16 @@ pub trait RiRefBufImpl: Sized + RiRefImpl {
 		}
 	}
 
+	/// Removes the dot segments of the path as specified by
+	/// [RFC 3986, section 5.2.4](https://www.rfc-editor.org/rfc/rfc3986#section-5.2.4),
+	/// keeping the trailing `/` left by a final dot segment.
+	#[inline]
+	fn remove_dot_segments(&mut self) {
+		let path = self.path().normalized();
+		// Safe because `normalized` returns a valid path.
+		self.set_path(unsafe { Self::Path::new_unchecked(path.as_bytes()) })
+	}
+
 	/// Resolve the URI/IRI reference.
 	///
 	/// ## Abnormal use of dot segments.
@@ -398,11 +408,11 @@ pub trait RiRefBufImpl: Sized + RiRefImpl {
 		let parts = parse::reference_parts(self.as_bytes(), 0);
 
 		if parts.scheme.is_some() {
-			self.path_mut().normalize();
+			self.remove_dot_segments();
 		} else {
 			self.set_scheme(Some(base_iri.scheme()));
 			if parts.authority.is_some() {
-				self.path_mut().normalize();
+				self.remove_dot_segments();
 			} else if self.path().is_relative() && self.path().is_empty() {
 				self.set_authority(base_iri.authority());
 				self.set_path(base_iri.path());
@@ -411,7 +421,7 @@ pub trait RiRefBufImpl: Sized + RiRefImpl {
 				}
 			} else if self.path().is_absolute() {
 				self.set_authority(base_iri.authority());
-				self.path_mut().normalize();
+				self.remove_dot_segments();
 			} else {
 				self.set_authority(base_iri.authority());
 				let mut path_buffer = Self::RiBuf::from_scheme(base_iri.scheme().to_owned()); // we set the scheme to avoid path disambiguation.
